@@ -177,10 +177,23 @@ func buildTree(ss []ast.Stmt, rest [][]ast.Stmt, seen map[string]int) *tnode {
 		return evChain(evs, &tnode{kind: "if", a: name, t: t, f: f})
 	case *ast.ForStmt:
 		hdr := "for " + fullExprStmt(x.Init) + ";" + fullExpr(x.Cond) + ";" + fullExprStmt(x.Post)
+		if expandLoops {
+			return loopTree(hdr, x.Body.List, tail, rest, seen)
+		}
 		return &tnode{kind: "ev", a: "loop", b: hdr, k: cont(seen)}
 	case *ast.RangeStmt:
 		hdr := "range " + fullExpr(x.X)
+		if expandLoops {
+			return loopTree(hdr, x.Body.List, tail, rest, seen)
+		}
 		return &tnode{kind: "ev", a: "loop", b: hdr, k: cont(seen)}
+	case *ast.BranchStmt:
+		// break / continue of an expanded loop: on to what follows the loop (the body is taken at most once)
+		if (x.Tok == token.BREAK || x.Tok == token.CONTINUE) && x.Label == nil && len(loopConts) > 0 {
+			lc := loopConts[len(loopConts)-1]
+			return buildTree(lc.tail, lc.rest, seen)
+		}
+		return &tnode{kind: "ev", a: "branch", b: x.Tok.String(), k: cont(seen)}
 	case *ast.DeferStmt:
 		var evs [][3]string
 		if fl, ok := x.Call.Fun.(*ast.FuncLit); ok {
@@ -224,6 +237,24 @@ func buildTree(ss []ast.Stmt, rest [][]ast.Stmt, seen map[string]int) *tnode {
 	default:
 		return evChain(callEvents(s), cont(seen))
 	}
+}
+
+// expanded loops: TIf (EAtom "loop:<header>") <body once, then what follows> <what follows>
+var expandLoops = false
+
+type loopCont struct {
+	tail []ast.Stmt
+	rest [][]ast.Stmt
+}
+
+var loopConts []loopCont
+
+func loopTree(hdr string, body []ast.Stmt, tail []ast.Stmt, rest [][]ast.Stmt, seen map[string]int) *tnode {
+	loopConts = append(loopConts, loopCont{tail, rest})
+	t := buildTree(body, append([][]ast.Stmt{tail}, rest...), seen)
+	loopConts = loopConts[:len(loopConts)-1]
+	f := buildTree(tail, rest, seen)
+	return &tnode{kind: "if", a: "(EAtom " + coqStr("loop:"+hdr) + ")", t: t, f: f}
 }
 
 func fullExprStmt(s ast.Stmt) string {
@@ -276,7 +307,7 @@ func coqTree(t *tnode, sb *strings.Builder, ind int) {
 }
 
 // GenTrees.v: the decision trees of the named functions
-func genTrees(fm map[string]*ast.FuncDecl, names []string) string {
+func genTrees(fm map[string]*ast.FuncDecl, names []string, expand map[string]bool) string {
 	var sb strings.Builder
 	sb.WriteString("(* GENERATED by /verif/go/gotables (trees.go) from the Go sources of /repo (go/ast) - regenerated on every run, do not edit.\n")
 	sb.WriteString("   The decision tree of each function: TIf cond then else | TEv (kind, a, b) rest | TRet; see go/gotables/trees.go. *)\n")
@@ -291,8 +322,11 @@ func genTrees(fm map[string]*ast.FuncDecl, names []string) string {
 		if fd == nil || fd.Body == nil {
 			continue
 		}
+		expandLoops = expand[n]
+		loopConts = nil
 		t := buildTree(fd.Body.List, nil, map[string]int{})
-		if treeSize(t) > 6000 {
+		expandLoops = false
+		if treeSize(t) > 20000 {
 			t = &tnode{kind: "ev", a: "toolarge", b: short, k: &tnode{kind: "ret"}}
 		}
 		fmt.Fprintf(&sb, "Definition gen_%s : tree :=\n", short)
@@ -368,4 +402,62 @@ func pureArith(e ast.Expr) bool {
 		}
 	}
 	return false
+}
+
+// hash-consed printing: a subtree whose text is long and occurs again is emitted once as its own Definition
+type sharer struct {
+	names map[string]string
+	defs  []string
+	pref  string
+}
+
+func (sh *sharer) expr(t *tnode) string {
+	var e string
+	switch t.kind {
+	case "ret":
+		return "(TRet " + coqStr(t.a) + ")"
+	case "ev":
+		e = "(TEv (" + coqStr(t.a) + ", " + coqStr(t.b) + ", " + coqStr(t.c) + ") " + sh.expr(t.k) + ")"
+	case "let":
+		e = "(TLet " + coqStr(t.a) + " " + t.b + " " + sh.expr(t.k) + ")"
+	case "if":
+		e = "(TIf " + t.a + " " + sh.expr(t.t) + " " + sh.expr(t.f) + ")"
+	}
+	if len(e) < 200 {
+		return e
+	}
+	if n, ok := sh.names[e]; ok {
+		return n
+	}
+	n := fmt.Sprintf("%s_%d", sh.pref, len(sh.defs)+1)
+	sh.names[e] = n
+	sh.defs = append(sh.defs, "Definition "+n+" : tree := "+e+".")
+	return n
+}
+
+// GenTreesAE.v: functions with loops, expanded (body once or not at all), with shared subtrees
+func genTreesShared(fm map[string]*ast.FuncDecl, names []string) string {
+	var sb strings.Builder
+	sb.WriteString("(* GENERATED by /verif/go/gotables (trees.go) from the Go sources of /repo - regenerated on every run, do not edit.\n")
+	sb.WriteString("   Decision trees of functions WITH loops: a loop is TIf (EAtom \"loop:<header>\") <body once, then what follows> <what follows>;\n")
+	sb.WriteString("   break/continue go on to what follows the loop. Subtrees that occur several times are emitted once (s_<n>). *)\n")
+	sb.WriteString("From Coq Require Import List String NArith.\nFrom RaftModel Require Import GenTrees.\nImport ListNotations.\nOpen Scope string_scope.\n\n")
+	for _, n := range names {
+		fd := fm[n]
+		short := n[strings.Index(n, ".")+1:]
+		if fd == nil || fd.Body == nil {
+			continue
+		}
+		expandLoops = true
+		loopConts = nil
+		t := buildTree(fd.Body.List, nil, map[string]int{})
+		expandLoops = false
+		sh := &sharer{names: map[string]string{}, pref: "s_" + short}
+		top := sh.expr(t)
+		for _, d := range sh.defs {
+			sb.WriteString(d + "\n")
+		}
+		fmt.Fprintf(&sb, "Definition genx_%s : tree := %s.\n\n", short, top)
+	}
+	return sb.String()
 }
